@@ -3,6 +3,8 @@ package c06
 import (
 	"fmt"
 	"os"
+	"sort"
+	"strings"
 	"testing"
 	"testing/synctest"
 	"time"
@@ -104,4 +106,143 @@ func toLS(l model.Labels) commonmodel.LabelSet {
 		ls[commonmodel.LabelName(k)] = commonmodel.LabelValue(v)
 	}
 	return ls
+}
+
+// TestEmptyGroupLabelValues: a label with an empty value is a label that is not there. Alerts that differ
+// only in carrying `team: ""` or no team label at all have equal group_by values and belong to one group
+// (with group_by: ['...'], they are one alert).
+func TestEmptyGroupLabelValues(t *testing.T) {
+	run := vf.Cur()
+	sub := run.Sub("empty-group-label-values", "group_by: [alertname, team] (or ['...']); alerts of one alert name are posted with team missing, with team: \"\" and (a third) with a real team value, in one batch or one per POST in random order; GET /alerts/groups must show ONE group for the alerts without a team value, with group labels that carry no empty-valued label, holding all of them, and a separate group for the real value; every notification of that group lists all of them under those group labels; with ['...'] the two spellings of the same label set are one alert in one group; non-trivial = every case; distinct by (seed)", 8)
+	n := run.N(16, 400)
+	vf.Parallel(t, n, 8, func(t *testing.T, i int) {
+		r := sub.Rand(i)
+		all := i%4 == 3
+		gw, gi, ri := time.Second, 30*time.Second, time.Hour
+		gb := []string{"alertname", "team"}
+		if all {
+			gb = []string{"..."}
+		}
+		cfg := &scen.Config{ResolveTimeout: 5 * time.Minute, Route: &model.RouteSpec{Receiver: "r0", GroupBy: &gb, GroupWait: &gw, GroupInterval: &gi, RepeatInterval: &ri},
+			Receivers: []scen.Receiver{{Name: "r0", Integs: []scen.Integ{{SendResolved: true}}}}}
+		dir := sysrun.ScratchDir("C06", "emptyval", i)
+		defer os.RemoveAll(dir)
+		name := fmt.Sprintf("Down%d", r.Intn(3))
+		var posts []model.Labels
+		if all {
+			posts = []model.Labels{{"alertname": name, "instance": "1", "team": ""}, {"alertname": name, "instance": "1"}}
+		} else {
+			posts = []model.Labels{{"alertname": name, "instance": "1", "team": ""}, {"alertname": name, "instance": "2"}, {"alertname": name, "instance": "3", "team": "db"}}
+			if r.Intn(2) == 0 {
+				posts = append(posts, model.Labels{"alertname": name, "instance": "4", "team": "", "zone": ""})
+			}
+		}
+		r.Shuffle(len(posts), func(a, b int) { posts[a], posts[b] = posts[b], posts[a] })
+		synctest.Test(t, func(t *testing.T) {
+			in, err := sim.Start(sim.Options{ConfigYAML: cfg.YAML(), Dir: dir})
+			if err != nil {
+				sub.Inconclusive("start: " + err.Error())
+				return
+			}
+			defer in.Stop()
+			far := time.Now().Add(5 * time.Hour)
+			if r.Intn(2) == 0 {
+				var body []sim.PostableAlert
+				for _, l := range posts {
+					body = append(body, sim.PostableAlert{Labels: l, EndsAt: &far})
+				}
+				in.PostAlerts(body...)
+			} else {
+				for _, l := range posts {
+					in.PostAlerts(sim.PostableAlert{Labels: l, EndsAt: &far})
+					time.Sleep(time.Duration(1+r.Intn(400)) * time.Millisecond)
+				}
+			}
+			time.Sleep(2 * time.Minute)
+			norm := func(l model.Labels) model.Labels {
+				out := model.Labels{}
+				for k, v := range l {
+					if v != "" {
+						out[k] = v
+					}
+				}
+				return out
+			}
+			// reference partition
+			want := map[string]map[string]bool{} // group labels -> alert label sets
+			for _, l := range posts {
+				nl := norm(l)
+				g := model.Labels{}
+				if all {
+					g = nl
+				} else {
+					g["alertname"] = nl["alertname"]
+					if v, ok := nl["team"]; ok {
+						g["team"] = v
+					}
+				}
+				if want[g.Key()] == nil {
+					want[g.Key()] = map[string]bool{}
+				}
+				want[g.Key()][nl.Key()] = true
+			}
+			w := map[string]any{"seed": sub.Seed(i), "group_by": gb, "posted": posts}
+			_, groups := in.GetGroups("")
+			got := map[string]map[string]bool{}
+			for _, g := range groups {
+				for k, v := range g.Labels {
+					if v == "" {
+						w["group_labels"] = g.Labels
+						sub.Violation("group-labels-carry-an-empty-valued-label", w)
+						return
+					}
+					_ = k
+				}
+				if got[g.Labels.Key()] == nil {
+					got[g.Labels.Key()] = map[string]bool{}
+				}
+				for _, ga := range g.Alerts {
+					got[g.Labels.Key()][norm(ga.Labels).Key()] = true
+				}
+			}
+			render := func(m map[string]map[string]bool) []string {
+				var out []string
+				for g, as := range m {
+					var ks []string
+					for a := range as {
+						ks = append(ks, a)
+					}
+					sort.Strings(ks)
+					out = append(out, g+" <- "+strings.Join(ks, " "))
+				}
+				sort.Strings(out)
+				return out
+			}
+			if g, x := render(got), render(want); strings.Join(g, "\n") != strings.Join(x, "\n") || len(groups) != len(want) {
+				w["api_groups"], w["expected_groups"], w["api_group_count"] = g, x, len(groups)
+				sub.Violation("alerts-with-equal-group-values-split-over-groups", w)
+				return
+			}
+			// every notification lists the complete group under those labels
+			for _, a := range in.Log.Attempts() {
+				exp := want[a.GroupLabels.Key()]
+				if exp == nil {
+					w["notification_group_labels"] = a.GroupLabels
+					sub.Violation("notification-for-a-group-the-partition-does-not-have", w)
+					return
+				}
+				listed := map[string]bool{}
+				for _, al := range a.Alerts {
+					listed[norm(al.Labels).Key()] = true
+				}
+				if len(listed) != len(exp) {
+					w["notification_group_labels"], w["listed"], w["expected"] = a.GroupLabels, len(listed), len(exp)
+					sub.Violation("notification-omits-a-firing-member-of-the-group", w)
+					return
+				}
+				sub.Count("notifications_checked", 1)
+			}
+			sub.Case(vf.Digest(sub.Seed(i)), true)
+		})
+	})
 }
